@@ -318,9 +318,24 @@ def c03_let_family(rep, tier, coverage, ctx):
                     for surface in (("let",) if tier == "quick" and len(progs) % 3 else ("let", "into")):
                         d = {"kind": "let", "name": "rel1", "short": "rel1", "steps": inner, "params": [], "named": [], "body": {"t": "lit"}, "surface": surface, "module": ""}
                         progs.append({"id": f"let{len(progs)}", "decl": True, "decls": [d], "steps": [from_("rel1"), tk] + ([af] if af else [])})
+    # the consumer sorts again before taking: the take must follow the new order, not the one inherited from the declaration
+    resorts = [sort(("desc", "b"), ("asc", "k")), sort(("asc", "k"))]
+    for so in sorts[:3]:
+        for pr in projs[:2]:
+            for rs in resorts:
+                for tk in takes[:3]:
+                    for af in (None, after[1], after[4], after[7], group(["a"], [aggregate(item(agg("sum", b), "s"), item(agg("max", k), "m"))])):
+                        inner = [from_("t"), so] + ([pr] if pr else [])
+                        d = {"kind": "let", "name": "rel1", "short": "rel1", "steps": inner, "params": [], "named": [], "body": {"t": "lit"}, "surface": "let", "module": ""}
+                        progs.append({"id": f"let{len(progs)}", "decl": True, "decls": [d], "steps": [from_("rel1"), rs, tk] + ([af] if af else [])})
+    def fix_(st_):
+        st_.setdefault("at", [])
+        for key in ("with", "pipe"):
+            for x in st_.get(key, []) or []:
+                fix_(x)
     for p in progs:
         for st_ in p["steps"] + p["decls"][0]["steps"]:
-            st_.setdefault("at", [])
+            fix_(st_)
     dbset = os.path.join(ROOT, "corpus", "dbs_quick.json" if tier == "quick" else "dbs_thorough.json")
     res = l1check.run(rep, "C03-let", progs, dbset, CONFIG["C03"]["relevant"])
     return {"let_family": {"programs": len(progs), "accepted": res["accepted"], "rejected": res["rejected"], "not_judged": res["skipped"],
